@@ -31,7 +31,7 @@ TRUSTED = [
     'CPython: small ints identical iff equal, copy.copy / copy.deepcopy of list and dict of ints, attribute lookup along __mro__',
 ]
 ASSUMPTIONS = [
-    'values are None, small ints and lists of ints; Parameter types Parameter / Integer / Selector(list-declared objects); '
+    'values are None, small ints, lists of ints and tuples of (distinct) lists of ints — one level of nesting, so that copy.deepcopy and a shallow copy differ; Parameter types Parameter / Integer / Selector(list-declared objects); '
     'subclasses add new names only (an inherited Parameter is overridden only by class-level assignment)',
     'ListSelector, names-declared Selectors, watchers, references (except: one constructor keyword per instance may be a '
     'reference without a value, which assigns nothing), disable_instance_params, readonly, set-before-super().__init__ '
@@ -53,6 +53,7 @@ COVERAGE_TARGETS = [
     'slotSet:inst:precedence:ok', 'slotSet:cls:boundsList:ok', 'slotSet:cls:objects:ok', 'slotSet:cls:constant:ok',
     'slotMut:inst:objectsAppend:ok', 'slotMut:inst:namesInsert:ok', 'slotMut:inst:boundsSetHi:ok', 'slotMut:inst:boundsSetHi:TypeError',
     'slotMut:cls:objectsAppend:ok', 'slotMut:cls:namesInsert:ok', 'slotMut:cls:boundsSetHi:ok', 'slotSet:inst:objects:AttributeError',
+    'mutItem:inst:ok', 'mutItem:cls:ok', 'decl:tuple-of-lists:inst=1', 'decl:tuple-of-lists:inst=0',
     'leaky-ctor-kwarg', 'skipped:no-instance', 'mkInst:pending-ref:ok', 'sharedFail:ok', 'decl:tagged-parameter-subclass', 'decl:refs:pi=0', 'decl:container-subclass', 'class:falsy-instances', 'setVal:via-update',
 ]
 
@@ -111,7 +112,7 @@ def _mk_param(param, d):
     kw = {'instantiate': d['inst'], 'constant': d['const'], 'per_instance': d['pi']}
     if d.get('refs'):
         kw['allow_refs'] = True
-    default = list(d['default']) if isinstance(d['default'], list) else d['default']
+    default = _lit(d['default'])
     if d['kind'] == 'plain':
         if d.get('tags') is not None:
             return _tagged_class()(default=default, tags=lst(d['tags']), **kw)
@@ -143,6 +144,11 @@ class _World:
     def val(self, v):
         if v is None:
             return None
+        if isinstance(v, tuple):
+            # a tuple of lists: immutable itself, its items are containers with an identity
+            if not all(type(x) in (list, _L) and all(type(y) is int for y in x) for x in v):
+                raise RuntimeError(f'value outside the modelled universe: {v!r}')
+            return {'t': [{'c': self.cid(x), 'v': list(x)} for x in v]}
         if isinstance(v, bool) or not isinstance(v, (int, list)):
             raise RuntimeError(f'value outside the modelled universe: {v!r}')
         if isinstance(v, int):
@@ -220,6 +226,8 @@ def _lit(v):
     if v == 'pending':
         # a reference that has no value now: assigns nothing when given to the constructor of an allow_refs parameter
         return _pending_ref()
+    if isinstance(v, dict):
+        return tuple(list(l) for l in v['tup'])          # a tuple display of list displays: new objects every time
     return list(v) if isinstance(v, list) else v
 
 
@@ -268,6 +276,8 @@ def _apply(w, op):
                 setattr(tgt, name, _lit(op['v']))
         elif o == 'mutVal':
             getattr(tgt, name).append(op['v'])
+        elif o == 'mutItem':
+            getattr(tgt, name)[op['i']].append(op['v'])
         elif o == 'access':
             tgt.param[name]
         elif o == 'slotSet':
@@ -334,6 +344,8 @@ def _canon(obs):
         return table[c]
 
     def val(v):
+        if isinstance(v, dict) and 't' in v:
+            return {'t': [{'c': ren(x['c']), 'v': x['v']} for x in v['t']]}
         return {'c': ren(v['c']), 'v': v['v']} if isinstance(v, dict) else v
 
     def pobj(p):
@@ -399,6 +411,14 @@ def setV(t, x, v):
 
 def mutV(t, x, v):
     return {'op': 'mutVal', 't': list(t), 'x': x, 'v': v}
+
+
+def mutI(t, x, i, v):
+    return {'op': 'mutItem', 't': list(t), 'x': x, 'i': i, 'v': v}
+
+
+def TUP(*ls):
+    return {'tup': [list(l) for l in ls]}
 
 
 def acc(i, x):
@@ -482,6 +502,17 @@ def directed():
            setV(C(0), 1, [2]), mutV(C(0), 1, 3), mutV(I(0), 1, 4), setV(I(1), 0, 2), setV(I(1), 0, 3)]
 
 
+def directed_nested():
+    # tuples of lists as defaults: immutable themselves, their items are not. instantiate=True -> deepcopy rebuilds the tuple
+    # around NEW lists for every instance; otherwise the items are shared by identity
+    yield [mkClass([], [D(0, 'plain', TUP([0, 0], [0, 0]), inst=True), D(1, 'plain', TUP([1], [2])), D(2, 'plain', TUP([3], [4]), const=True)]),
+           mkClass([0], []), mkInst(0), mkInst(1), mutI(I(0), 0, 0, 9), mutI(C(0), 0, 1, 8), mkInst(0), mutI(I(1), 0, 0, 7), mutI(C(1), 0, 0, 6),
+           mutI(I(0), 1, 0, 5), mutI(I(1), 2, 1, 4), setV(C(1), 0, TUP([5], [6])), mkInst(1), mutI(I(3), 0, 0, 1), setV(I(0), 0, TUP([1], [1])),
+           mutI(I(0), 0, 1, 2), mutV(I(0), 0, 3), mkInst(0, [(0, TUP([7], [8]))]), mutI(I(4), 0, 0, 9), setV(I(0), 2, TUP([1], [1]))]
+    yield [mkClass([], [D(0, 'plain', TUP([1, 2], []), inst=True, pi=False), D(1, 'plain', TUP([], [3]), inst=True, const=True)]), mkInst(0), mkInst(0),
+           mutI(I(0), 0, 1, 5), mutI(I(1), 1, 0, 6), mutI(C(0), 1, 1, 7), acc(0, 0), mutI(I(0), 0, 0, 8), mkInst(0), setV(C(0), 0, TUP([9], [9])), mkInst(0)]
+
+
 def _alphabet():
     ops = []
     for t in (I(0), I(1), C(0), C(1)):
@@ -495,10 +526,17 @@ def _alphabet():
 KINDS = ('plain', 'number', 'selector')
 
 
+def _tuple_lit(rng):
+    return TUP(*[[rng.randint(1, 9) for _ in range(rng.randint(0, 2))] for _ in range(2)])
+
+
 def _rand_decl(rng, name):
     kind = rng.choice(KINDS)
     pi = rng.random() < 0.85
     const = rng.random() < 0.2
+    if kind == 'plain' and rng.random() < 0.15:
+        # a tuple of two lists; such a parameter holds 2-tuples of lists throughout the case
+        return dict(D(name, kind, _tuple_lit(rng), inst=rng.random() < 0.6, const=const, pi=pi), tupd=True)
     if kind == 'plain':
         if rng.random() < 0.2:
             return D(name, kind, None, inst=rng.random() < 0.5, const=rng.random() < 0.4, pi=pi)
@@ -573,7 +611,10 @@ def _random_case(rng, leaky):
                 op['via'] = 'update'
             ops.append(op)
         elif r < 0.42:
-            ops.append(mutV(t, x, rng.randint(1, 9)))
+            if d.get('tupd') and rng.random() < 0.85:
+                ops.append(mutI(t, x, rng.randrange(2), rng.randint(1, 9)))
+            else:
+                ops.append(mutV(t, x, rng.randint(1, 9)))
         elif r < 0.55 and t[0] == 'inst':
             ops.append(acc(t[1], x))
         elif r < 0.78:
@@ -598,6 +639,8 @@ def _random_case(rng, leaky):
 
 
 def _value(rng, d, safe):
+    if d.get('tupd'):
+        return _tuple_lit(rng)
     if d['kind'] == 'plain':
         if rng.random() < 0.12:
             return None
@@ -614,6 +657,8 @@ def cases(rng, tier, worker, nworkers):
         for f in sorted(glob.glob(os.path.join(os.path.dirname(__file__), '..', '..', 'corpus', 'C12', '*.json'))):
             yield json.load(open(f))['case']
         for ops in directed():
+            yield {'ops': [dict(o) for o in ops]}
+        for ops in directed_nested():
             yield {'ops': [dict(o) for o in ops]}
     pre = BASE + [mkInst(0), mkInst(1)]
     alpha = _alphabet()
@@ -675,6 +720,8 @@ def tags(case, impl):
                         t.append('decl:container-subclass')
                     if d.get('refs') and not d['pi']:
                         t.append('decl:refs:pi=0')
+                    if isinstance(d['default'], dict):
+                        t.append(f'decl:tuple-of-lists:inst={int(d["inst"])}')
                     if d['default'] is None:
                         t += [f'decl:plain:none-default:{k}' for k in ('inst', 'const') if d[k]]
     return t
@@ -685,7 +732,7 @@ def nontrivial(case, impl, resp):
         return False
     last = impl['steps'][-1]
     writes = sum(1 for op, st in zip(case['ops'], impl['steps'])
-                 if op['op'] in ('setVal', 'mutVal', 'slotSet', 'slotMut') and st['err'] is None)
+                 if op['op'] in ('setVal', 'mutVal', 'mutItem', 'slotSet', 'slotMut') and st['err'] is None)
     return resp.get('checked_steps', 0) >= 3 and len(last['insts']) >= 1 and writes >= 1
 
 
